@@ -207,6 +207,13 @@ def check_c03(tier, seed):
             ("maximum[scalar]", lambda xp, a: xp.maximum(a, 0.5)), ("matmul[list]", lambda xp, a: xp.matmul(a, [1.0, 2.0, 3.0])), ("multiply[list]", lambda xp, a: xp.multiply(a, [1.0, 2.0, 3.0])),
             ("add[np-scalar]", lambda xp, a: xp.add(a, np.float64(2.0))), ("add[0d-array]", lambda xp, a: xp.add(a, np.array(2.0))), ("power[np-int-scalar]", lambda xp, a: xp.power(a, np.int64(3))),
         ]
+        # axis SPELLINGS of the rearrangement routines (tuples with negative entries, repeated / out-of-range axes NumPy refuses), on a 2-d view of xa
+        for axs in [(-2, -1), (-1, -2), [-2, -1], (0, -1), (-1, 0), (0, -2, -1), (-2, 3), (1, -3), (0, 0), (2, -1), (-3, 0), (4,), -3, 2]:
+            seqs.append((f"expand_dims[axis={axs!r}]", (lambda axs: lambda xp, a: xp.expand_dims(a.reshape(3, 1) * xp.ones((1, 2), dtype=a.dtype), axs))(axs)))
+        for axs in [(0, -1), (-1, 0), (-1,), (0, 2), -1, 0, (1,), (0, 0)]:
+            seqs.append((f"squeeze[axis={axs!r}]", (lambda axs: lambda xp, a: xp.squeeze(a.reshape(1, 3, 1), axis=axs))(axs)))
+        for src, dst in [((0, -1), (-1, 0)), ((-2, 0), (1, -1)), (-1, 0), ((0, 1), (2, 0)), ((0, 0), (1, 2))]:
+            seqs.append((f"moveaxis[{src!r}->{dst!r}]", (lambda src, dst: lambda xp, a: xp.moveaxis(a.reshape(1, 3, 1) * xp.ones((2, 1, 2), dtype=a.dtype), src, dst))(src, dst)))
         for nm, f in seqs:
             compare(nm, lambda: f(mg, mg.tensor(xa)), lambda: f(np, xa), dict(fn=nm, operands=[describe(xa)]))
         compare("add_sequence[scalar]", lambda: mg.add_sequence(mg.tensor(xa), 2.0, 1), lambda: xa + 2.0 + 1, dict(fn="add_sequence", operands=[describe(xa), "py:float:2.0", "py:int:1"]))
